@@ -672,6 +672,8 @@ def raw_term(s, x):
         if not (isinstance(x, SEnum) and x.cls is s.elem[1]) and not isinstance(x, s.elem[1]):
             raise E.Unsupported('element of type %s in a sequence of %s' % (I.py_type_of(x).__name__, s.elem[1].__name__))
         return ops.enum_index(x)
+    if s.elem == 'opaque':
+        return x.term if isinstance(x, SAbs) and x.kind == 'opaque_item' else V.fresh_int('opaque')
     raise E.Unsupported('element of a %r sequence' % (s.elem,))
 
 
